@@ -345,6 +345,12 @@ func (ex *Exec) storeLocNoCheck(l Loc, v Val) {
 
 // havocValue makes a fresh value of type t but keeps array objects in place (their contents are havocked).
 func (ex *Exec) havocValue(old Val, t types.Type, hint string) Val {
+	if t == nil {
+		if s, ok := old.(Scalar); ok && s.T != nil {
+			return Scalar{T: ex.ts.Fresh(hint, s.T.S)}
+		}
+		return old
+	}
 	switch u := under(t).(type) {
 	case *types.Struct:
 		sv, ok := old.(StructV)
